@@ -146,7 +146,8 @@ func render(t *rapid.T, toks []Tok, dense, bang bool) (string, int) {
 			case mode == 0 && (last || nextS == "}"):
 				asi++
 				continue // rule: before } and at the end of input
-			case mode == 1 && !last && safeAfterASI(nextS) && !toks[i+1].NoLT && !toks[i+1].Semi:
+			case mode == 1 && !last && !toks[i+1].NoLT && !toks[i+1].Semi &&
+				(safeAfterASI(nextS) || i > 0 && toks[i-1].EndsUncallable && (nextS[0] == '(' || nextS[0] == '[' || nextS[0] == '`')):
 				asi++
 				pendingLT = true
 				continue // rule: offending token on a new line
